@@ -197,7 +197,7 @@ def long_task(t):
     return dict(n=n, distinct=n, violations=viols, sample=None)
 
 
-STEPS_CONNECT = ["GREETING", "STARTTLS", "TLSCAPS", "AUTHRESULT"]
+STEPS_CONNECT = ["GREETING", "STARTTLS", "TLSCAPS", "AUTHSTART", "AUTHRESULT"]
 STEPS_RENAME = ["LISTSCRIPTS", "GETSCRIPT", "PUTSCRIPT", "SETACTIVE", "DELETESCRIPT"]
 
 
@@ -207,14 +207,16 @@ def multi_task(t):
     n = 0
     distinct = set()
     if kind == "connect":
-        for starttls in (False, True):
+        for starttls, mech in ((False, b"PLAIN"), (True, b"PLAIN"), (False, b"LOGIN"), (False, b"DIGEST-MD5"), (True, b"DIGEST-MD5 PLAIN"), (False, b"OAUTHBEARER")):
             for step in STEPS_CONNECT:
                 if not starttls and step in ("STARTTLS", "TLSCAPS"):
                     continue
                 for action in ("NO", "BYE"):
                     if step in ("GREETING", "TLSCAPS") and action == "NO":
                         continue  # a greeting is OK or BYE
-                    srv = refms.RefServer(starttls=True, faults=[(step, 0, action)])
+                    caps = [(b"IMPLEMENTATION", b"x"), (b"SASL", mech), (b"SIEVE", b"fileinto")]
+                    srv = refms.RefServer(starttls=True, caps_plain=caps, caps_tls=caps, faults=[(step, 0, action)])
+                    srv.digest_users = {"user": "pass"}
                     s = wire.open_session(srv, starttls=starttls)
                     o = s.connect_outcome
                     n += 1
@@ -234,7 +236,7 @@ def multi_task(t):
                             bad = ("errmsg", "NO \"injected refusal\" at %s: errcode=%r errmsg=%r" % (step, o.errcode, o.errmsg))
                     if bad:
                         viols.append({"property": "C09", "engine": "wire",
-                                      "signature": ["C09", "connect" + ("+starttls" if starttls else ""), "%s@%s" % (action, step), bad[0]],
+                                      "signature": ["C09", "connect" + ("+starttls" if starttls else "") + "/" + mech.decode().split()[0], "%s@%s" % (action, step), bad[0]],
                                       "what": bad[1], "case": {"kind": "connect", "starttls": starttls, "step": step, "action": action},
                                       "witness": "connect(starttls=%s) with %s at %s" % (starttls, action, step), "observed": o.brief()})
         # all OK: success
